@@ -264,7 +264,9 @@ AllMutations(v, n, T, i) ==
               Mut("rootTree", -1, "dropLast", -1), Mut("levels", -1, "truncate", -1), Mut("levels", -1, "extend", -1)}
         \cup {Mut(s, -1, k, -1) : s \in {"tgtLower", "tgtUpper", "rootLower", "rootUpper"}, k \in RangeKinds}
         \cup {Mut("index", -1, "set", x) : x \in IndexValues(i, P)}
-        \cup {Mut("sibHash", t, "flip", -1) : t \in 0..(L - 1)}
+        \* "extend": the sibling hash is LENGTHENED by the bytes that follow it in the parent-hash preimage
+        \* (a changed sibling hash like any other: verification must fail)
+        \cup {Mut("sibHash", t, k, -1) : t \in 0..(L - 1), k \in {"flip", "extend"}}
         \cup {Mut(s, t, k, -1) : s \in {"sibLower", "sibUpper"}, t \in 0..(L - 1), k \in RangeKinds}
         \cup {Mut("sibSubst", t, "from", j) : t \in 0..(L - 1), j \in 0..(n - 1)}
     IN {m \in cand : Enabled(v, n, T, i, m)}
